@@ -1003,7 +1003,8 @@ class Server:
             elif show == "definition":
                 result = engine.get_definition(location)
             else:
-                assert False, "Unknown inspection kind"
+                # The kind comes from the client's request, so this must not crash the daemon.
+                return {"error": f'Unknown inspection kind "{show}"'}
         finally:
             self.options.inspections = old_inspections
         if "out" in result:
